@@ -31,7 +31,7 @@ def ob_wf_glue(ob):
     layout = ob.params['layout']
 
     def target(ntr: bool, nsec: bool, b0: int, b1: int, multi: bool, colon: bool, sep: int):
-        doc, exp = W.build(layout, 2 if ntr else 1, 2 if nsec else 1, (choose(b0, range(5)), choose(b1, range(5))), bool(multi), bool(colon), choose(sep, range(3)))
+        doc, exp = W.build(layout, 2 if ntr else 1, 2 if nsec else 1, (choose(b0, range(len(W.BLOCKS))), choose(b1, range(len(W.BLOCKS)))), bool(multi), bool(colon), choose(sep, range(3)))
         p = P.run_parser(doc, 'default')
         return W.observed(p) == exp and p.e_flags == [] and p.layout == layout
 
@@ -44,7 +44,7 @@ def ob_wf_glue(ob):
         out = []
         for v in vs[:3]:
             a = v['args']
-            doc, exp = W.build(layout, 2 if a['ntr'] else 1, 2 if a['nsec'] else 1, (cl(a['b0'], 5), cl(a['b1'], 5)), bool(a['multi']), bool(a['colon']), cl(a['sep'], 3))
+            doc, exp = W.build(layout, 2 if a['ntr'] else 1, 2 if a['nsec'] else 1, (cl(a['b0'], len(W.BLOCKS)), cl(a['b1'], len(W.BLOCKS))), bool(a['multi']), bool(a['colon']), cl(a['sep'], 3))
             out.append(violation(f'layout-glue:{layout}', f'{doc.string!r} ({layout}) does not parse to {exp}; {v["exc"]}', 'c01_text',
                                  {'text': doc.string, 'expected': exp, 'layout': layout}))
         return out
@@ -158,7 +158,8 @@ def ob_m_nonum(ob):
 # ------------------------------------------------------------------ rendered descriptions through the real PLSSDesc
 TR_SP = ('T{n}N-R{m}W', 'Township {n} North, Range {m} West', 'T{n}S R{m}E', 'Twp. {n} N., Rge. {m} W.', '{n}n-{m}w')
 SEC_W = ('Sec ', 'Section ', 'Sec. ', '§')
-BLOCKS = ('NE/4', 'Lots 1 - 2, S/2NW/4', 'W/2, less and except the wellbore', 'That part of the North Half lying north of the river', 'ALL')
+BLOCKS = ('NE/4', 'Lots 1 - 2, S/2NW/4', 'W/2, less and except the wellbore', 'That part of the North Half lying north of the river', 'ALL',
+          'NE/4 and all rights therein', 'SW/4 as aforesaid', 'E/2 lying west of the drain')
 
 
 def render(layout, n_tr, n_sec, tr_ix, sw_ix, b_ix, multi, sep_ix):
@@ -254,5 +255,5 @@ def obligations(tier):
     for lay in LAYOUTS:
         obs.append(Ob(f'api_{lay}', 'S', ob_api, f'rendered {lay} descriptions through PLSSDesc incl. pretty_desc round trip',
                       functions=['PLSSDesc', 'plss_preprocess', 'PLSSParser', 'TractList.pretty_desc', 'TRS.pretty_twprge'], weight=8, timeout=7000,
-                      params={'layout': lay, 'cap': 6500, 'tr_set': (0, 1, 3) if q else tuple(range(len(TR_SP))), 'b_set': (0, 1, 3) if q else tuple(range(len(BLOCKS)))}))
+                      params={'layout': lay, 'cap': 6500, 'tr_set': (0, 1, 3) if q else tuple(range(len(TR_SP))), 'b_set': (0, 1, 3, 5, 7) if q else tuple(range(len(BLOCKS)))}))
     return obs
